@@ -23,7 +23,7 @@ def main():
         "guard": "cargo feature verif-hooks",
         "enable": "harness/Cargo.toml depends on sloc-guard = { path = \"/repo\", features = [\"verif-hooks\"] }; built with cargo build --offline in /verif/harness",
         "baseline_off_cmd": "cd /repo && cargo test --workspace --no-fail-fast --offline",
-        "source_commits": ["e3eae0f", "248be4d", "3618de3"],
+        "source_commits": ["e3eae0f", "248be4d", "3618de3", "95d13bd"],
         "add_only": True
       },
       "engines": [
